@@ -1630,6 +1630,19 @@ func replay(path string) {
 			json.Unmarshal(rp.Input, &sb)
 		}
 		runSysBatch(sb, sec)
+	case "pipes":
+		sec := res.Section("pipes", "replay", "replay of one recorded pipe case (live copies, restart, copies after the restart)")
+		var wc struct {
+			Case *pipeCase `json:"case"`
+		}
+		var pc pipeCase
+		json.Unmarshal(rp.Input, &wc)
+		if wc.Case != nil {
+			pc = *wc.Case
+		} else {
+			json.Unmarshal(rp.Input, &pc)
+		}
+		runPipeCase(pc, sec)
 	default:
 		res.Note("replay: unknown section %q", rp.Section)
 	}
